@@ -61,11 +61,13 @@ class Session:
     def close(self):
         self.ex.close()
 
-    def replay(self, steps, exact_tags=frozenset(), label=None, sample=True, **kw):
+    def replay(self, steps, exact_tags=frozenset(), label=None, sample=True, leaf_seed=None, **kw):
         """replay one behaviour; returns True iff it conforms"""
         self.n += 1
         prefix = "b%d_" % self.n
-        leaves = make_leaves(leaves_of(steps), seed())
+        leaves = make_leaves(leaves_of(steps), seed() if leaf_seed is None else leaf_seed)
+        if leaf_seed is not None:
+            kw = dict(kw, memo={})        # the shared memo is only valid for the run's own leaf values
         rp = Replayer(self.ex, leaves, exact_tags=exact_tags, prefix=prefix, **kw)
         idx, bad = rp.run(steps)
         self.last_trace = rp.trace if idx is None else None
@@ -90,7 +92,7 @@ class Session:
         self.check.violation(
             "step %d (%s%s): %s" % (idx2, st["op"], "/" + st["form"] if st.get("form") else "", "; ".join(bad2)),
             {"kind": "behaviour", "exact_tags": "ALL" if exact_tags == ALL else sorted(exact_tags),
-             "seed": seed(), "steps": steps[:idx2 + 1], "mismatch": bad2,
+             "seed": seed() if leaf_seed is None else leaf_seed, "steps": steps[:idx2 + 1], "mismatch": bad2,
              "calls": [{"cmd": c, "event": e} for c, e in rp2.trace[-4:]],
              "options": {k: v for k, v in kw.items()},
              "fingerprint": fingerprint(st, bad2)})
